@@ -14,6 +14,7 @@ FRAGMENTS = [
     ("Options", "gen_options"),
     ("MainProgram", "gen_main"),
     ("Ctors", "gen_ctor"),
+    ("Sizes", "gen_sizes"),
 ]
 
 
